@@ -58,6 +58,10 @@ var c01Family = []string{
 	`{"a":[{"a":[{"a":1}]}]}`, `{"a":[1,[2,[3]]]}`, `{"a":[{"b":{"a":1}},{"b":{"a":[2,3]}}]}`,
 	`[{"a":1}]`, `[{"a":1},{"a":2}]`, `[{"a":[1]},{"b":1}]`, `[[{"a":1}],[{"a":[2,3]}]]`, `[{"a":{"b":1}},{"a":{"b":[2]}}]`,
 	`[{"a":[{"b":1},{"b":2}]},{"a":[{"b":3}]}]`, `[[[{"a":{"b":1}}]]]`, `[{"b":[{"a":1}]}]`,
+	// one surviving item that is itself an array, next to siblings that
+	// contribute an empty array or nothing
+	`{"a":[[1,2]]}`, `{"a":[{"b":[[1,2]]},{"b":[]}]}`, `{"b":[{"a":[[1,2]]},{"a":[]}]}`, `[{"a":[[1,2]]},{"a":[]}]`,
+	`{"a":{"a":[{"a":[]},{"a":[["x"]]},{"b":1}]}}`, `{"a":[[[1]],[]]}`, `{"a":[{"a":[[{"a":1}]]},{"a":[]},{"b":[[2]]}]}`,
 }
 
 func c01StepAlphabet() []func() *ast.Node {
@@ -76,7 +80,7 @@ func c01StepAlphabet() []func() *ast.Node {
 // TestC01_Exhaustive: every path of <= 3 steps over the step alphabet
 // {a, b, *, **, $, (a), [a], a[]} on the fixed document family.
 func TestC01_Exhaustive(t *testing.T) {
-	rec := begin(t, "C01", "exhaustive: every path of 1..3 steps over the step alphabet {a, b, *, **, $, (a), [a], a[]} on a fixed family of 40 documents covering every nesting pattern of depth <= 3 of object / array / array-in-array / missing member (results compared as multisets when * or ** meets a multi-member object); non-trivial = the reference's path tracer saw mapping over >= 2 items, flattening, a dropped absent value, a keep-array effect, an anchored start, the last-step shortcut or a constructor-step unit; distinct by program + document")
+	rec := begin(t, "C01", "exhaustive: every path of 1..3 steps over the step alphabet {a, b, *, **, $, (a), [a], a[]} on a fixed family of 47 documents covering every nesting pattern of depth <= 3 of object / array / array-in-array / missing member, plus lone array-valued survivors next to empty-array and absent siblings (results compared as multisets when * or ** meets a multi-member object); non-trivial = the reference's path tracer saw mapping over >= 2 items, flattening, a dropped absent value, a keep-array effect, an anchored start, the last-step shortcut or a constructor-step unit; distinct by program + document")
 	defer finish(t, rec)
 	alpha := c01StepAlphabet()
 	n := 0
